@@ -20,7 +20,7 @@ CHECKS = {
         'text contains no "<". Not proved: totality and completeness of the roughly 200 SAX handlers of odf2xhtml.py and of the minidom '
         'walk of odf2moinmoin.py - no model of them is written; they are decided by the oracle: documents from the converters\' '
         'vocabulary with markup characters in every string, output parsed by expat, text tokens compared in document order, CSS on and off.',
-   note='Axioms: none. The handlers are exercised, not modelled.',
+   note='Axioms: none. The handlers are exercised, not modelled. One recorded finding (a note inside a note).',
    tech='Coq proof of the writer layer (lexer round trip) + correspondence of the writer primitives + oracle over generated documents',
    ref='5/C18'),
  'C19': dict(
